@@ -24,10 +24,10 @@ R = [
 
     # ---- reviewed safe
     (r"CryptFilter>::compute_key$", r"index:RangeTo", r"key_len", "SAFE", "key_len = min(key.len()+5, 16) and an MD5 digest is 16 bytes"),
-    (r"Aes(128|256)CryptFilter as CryptFilter>::decrypt$", r"index:Range(To|From)", r"ciphertext", "SAFE", "dominated by `len % 16 != 0 -> Err` and `is_empty() || len == 16 -> return`: len >= 32", [{'kind': 'dominating', 'cond': '^Ne\\(Rem\\(len\\(&\\*ciphertext\\),16\\),0\\)$', 'truth': False, 'where': 'self'}, {'kind': 'dominating', 'cond': '^is_empty\\(&\\*ciphertext\\)$', 'truth': False, 'where': 'self'}]),
-    (r"Aes(128|256)CryptFilter as CryptFilter>::decrypt$", r"slice-op", r"copy_from_slice\(&iv", "SAFE", "iv is [u8; 16] and the source is ciphertext[..16]", [{'kind': 'dominating', 'cond': '^Ne\\(Rem\\(len\\(&\\*ciphertext\\),16\\),0\\)$', 'truth': False, 'where': 'self'}, {'kind': 'dominating', 'cond': '^is_empty\\(&\\*ciphertext\\)$', 'truth': False, 'where': 'self'}]),
-    (r"Aes128CryptFilter as CryptFilter>::decrypt$", r"generic-array", r"\(&\*key\)", "SAFE", "dominated by `key.len() != 16 -> Err`", [{'kind': 'dominating', 'cond': '^Ne\\(len\\(&\\*key\\),16\\)$', 'truth': False, 'where': 'self'}]),
-    (r"Aes256CryptFilter as CryptFilter>::decrypt$", r"generic-array", r"\(&\*key\)", "SAFE", "dominated by `key.len() != 32 -> Err`", [{'kind': 'dominating', 'cond': '^Ne\\(len\\(&\\*key\\),32\\)$', 'truth': False, 'where': 'self'}]),
+    (r"Aes(128|256)CryptFilter as CryptFilter>::decrypt$", r"index:Range(To|From)", r"ciphertext", "SAFE", "dominated by `len % 16 != 0 -> Err` and `is_empty() || len == 16 -> return`: len >= 32", [{'kind': 'dominating', 'cond': '^Ne\\(Rem\\(len\\(&\\*\\$\\d+\\),16\\),0\\)$', 'truth': False, 'where': 'self'}, {'kind': 'dominating', 'cond': '^is_empty\\(&\\*\\$\\d+\\)$', 'truth': False, 'where': 'self'}]),
+    (r"Aes(128|256)CryptFilter as CryptFilter>::decrypt$", r"slice-op", r"copy_from_slice\(&iv", "SAFE", "iv is [u8; 16] and the source is ciphertext[..16]", [{'kind': 'dominating', 'cond': '^Ne\\(Rem\\(len\\(&\\*\\$\\d+\\),16\\),0\\)$', 'truth': False, 'where': 'self'}, {'kind': 'dominating', 'cond': '^is_empty\\(&\\*\\$\\d+\\)$', 'truth': False, 'where': 'self'}]),
+    (r"Aes128CryptFilter as CryptFilter>::decrypt$", r"generic-array", r"\(&\*key\)", "SAFE", "dominated by `key.len() != 16 -> Err`", [{'kind': 'dominating', 'cond': '^Ne\\(len\\(&\\*\\$\\d+\\),16\\)$', 'truth': False, 'where': 'self'}]),
+    (r"Aes256CryptFilter as CryptFilter>::decrypt$", r"generic-array", r"\(&\*key\)", "SAFE", "dominated by `key.len() != 32 -> Err`", [{'kind': 'dominating', 'cond': '^Ne\\(len\\(&\\*\\$\\d+\\),32\\)$', 'truth': False, 'where': 'self'}]),
     (r"CryptFilter>::decrypt$", r"generic-array", r"\(iv\)", "SAFE", "iv is a [u8; 16] by value: the conversion is by type"),
     (r"^<CountingWrite as Write>::write(_all)?$", r"overflow:Add", r"bytes_written", "SAFE", "counts bytes delivered to the sink; 2^64 bytes of output are not reachable"),
     (r"^IncrementalDocument::save_internal$", r"overflow:Add", r"bytes_written", "SAFE", "first addition to a zero counter: 0 + len"),
@@ -36,19 +36,19 @@ R = [
     (r"^<PageTreeIter as Iterator>::next$", r"overflow:Sub", r"iter_limit,1", "SAFE", "dominated by `iter_limit == 0 -> return None` (re-verified by C12's R-TERM rule)"),
     (r"^<PageTreeIter as Iterator>::next$", r"unwrap", r"self.kids", "SAFE", "`kids` was just assigned Some(..) or checked by the while-let in the same iteration (state machine of next)"),
     (r"^Document::decrypt_raw$", r"unwrap", r"Encrypt", "SAFE", "`trailer.get(b\"Encrypt\")?` earlier in the same body succeeded and nothing removes the key in between"),
-    (r"^Document::dereference$|^Document::get_page_contents$", r"overflow:Add", r"nb_deref,1", "SAFE", "counter compared against a small limit before each increment (DEREF_LIMIT / loop bound)", [{'kind': 'exists', 'fn': 'Document::dereference', 'cond': 'Gt\\(nb_deref,'}]),
+    (r"^Document::dereference$|^Document::get_page_contents$", r"overflow:Add", r"nb_deref,1", "SAFE", "counter compared against a small limit before each increment (DEREF_LIMIT / loop bound)", [{'kind': 'exists', 'fn': 'Document::dereference', 'cond': 'Gt\\(\\$\\d+,\\d+\\)'}]),
     (r"^Document::get_object_mut$", r"unwrap", r"get_mut", "SAFE", "the id was just resolved by get_object()/dereference() on the same map"),
     (r"^Document::get_outlines$", r"unwrap", r"node", "SAFE", "dominated by `node.is_none() -> return`"),
     (r"^Document::get_pages::\{closure#0\}$", r"overflow:Add", r"i,1", "SAFE", "i enumerates yielded pages (< objects.len() <= usize::MAX/size_of object)"),
-    (r"^Document::get_toc::\{closure#[01]\}$", r"bounds", r"len\(x\),[01]", "SAFE", "x is a chunk of chunks_exact(2)/chunks(2) taken after an odd length was rejected", [{'kind': 'dominating', 'cond': '^Ne\\(BitAnd\\(len\\(&title\\),1\\),0\\)$', 'truth': False, 'where': 'parent'}, {'kind': 'dominating', 'cond': '^Lt\\(len\\(&title\\),2\\)$', 'truth': False, 'where': 'parent'}]),
-    (r"^Encoding::bytes_to_string$", r"overflow", r"", "SAFE", "considered_source_code accumulates at most 4 bytes base 256 (reset when bytes_in_considered_code reaches 4), fits u32", [{'kind': 'exists', 'fn': 'Encoding::bytes_to_string', 'cond': 'bytes_in_considered_code'}]),
+    (r"^Document::get_toc::\{closure#[01]\}$", r"bounds", r"len\(x\),[01]", "SAFE", "x is a chunk of chunks_exact(2)/chunks(2) taken after an odd length was rejected", [{'kind': 'dominating', 'cond': '^Ne\\(BitAnd\\(len\\(&\\$\\d+\\),1\\),0\\)$', 'truth': False, 'where': 'parent'}, {'kind': 'dominating', 'cond': '^Lt\\(len\\(&\\$\\d+\\),2\\)$', 'truth': False, 'where': 'parent'}]),
+    (r"^Encoding::bytes_to_string$", r"overflow", r"", "SAFE", "considered_source_code accumulates at most 4 bytes base 256 (reset when bytes_in_considered_code reaches 4), fits u32", [{'kind': 'exists', 'fn': 'Encoding::bytes_to_string', 'cond': '^Eq\\(\\$\\d+,4\\)$'}]),
     (r"^Encoding::bytes_to_string::\{closure#0\}$", r"op-trait", r"(div|rem)\(it,256\)", "SAFE", "u16 / 256 and % 256 with a constant non-zero divisor"),
-    (r"^ObjectStream::new$", r"index:RangeTo", r"numbers.*len", "SAFE", "len = numbers.len() / 2 * 2 <= numbers.len()", [{'kind': 'call-arg', 'fn': 'ObjectStream::new', 'callee': 'ops::Index::index$', 'arg': 1, 'matches': 'RangeTo\\{len\\}'}]),
-    (r"^ObjectStream::new::\{closure#3\}$", r"bounds", r"len\(chunk\),[01]", "SAFE", "chunks of (par_)chunks(2) over an even-length prefix have exactly 2 elements", [{'kind': 'call-arg', 'fn': 'parent', 'callee': '(par_chunks|slice::<impl \\[T\\]>::chunks)$', 'arg': 1, 'matches': '^2$'}, {'kind': 'call-arg', 'fn': 'parent', 'callee': 'ops::Index::index$', 'arg': 1, 'matches': 'RangeTo\\{len\\}'}, {'kind': 'call-arg', 'fn': 'parent', 'callee': '(par_chunks|slice::<impl \\[T\\]>::chunks)$', 'arg': 0, 'matches': 'index\\(&numbers,RangeTo::RangeTo\\{len\\}\\)'}]),
+    (r"^ObjectStream::new$", r"index:RangeTo", r"numbers.*len", "SAFE", "len = numbers.len() / 2 * 2 <= numbers.len()", [{'kind': 'call-arg', 'fn': 'ObjectStream::new', 'callee': 'ops::Index::index$', 'arg': 1, 'matches': 'RangeTo\\{\\$\\d+\\}'}]),
+    (r"^ObjectStream::new::\{closure#3\}$", r"bounds", r"len\(chunk\),[01]", "SAFE", "chunks of (par_)chunks(2) over an even-length prefix have exactly 2 elements", [{'kind': 'call-arg', 'fn': 'parent', 'callee': '(par_chunks|slice::<impl \\[T\\]>::chunks)$', 'arg': 1, 'matches': '^2$'}, {'kind': 'call-arg', 'fn': 'parent', 'callee': 'ops::Index::index$', 'arg': 1, 'matches': 'RangeTo\\{\\$\\d+\\}'}, {'kind': 'call-arg', 'fn': 'parent', 'callee': '(par_chunks|slice::<impl \\[T\\]>::chunks)$', 'arg': 0, 'matches': 'index\\(&\\$\\d+,RangeTo::RangeTo\\{\\$\\d+\\}\\)'}]),
     (r"^ObjectStream::new::\{closure#3\}$", r"overflow:Add", r"", "SAFE", "first_offset <= content.len() <= isize::MAX (get(..first_offset) succeeded) plus a u32: no overflow on 64-bit usize"),
-    (r"^PasswordAlgorithm::(authenticate_owner_password_r4|compute_file_encryption_key_r4)$", r"index:RangeTo", r"hash\),RangeTo::RangeTo\{n\}", "SAFE", "n = Length/8 with Length validated to 40..=128 by PasswordAlgorithm::try_from (default 40): n <= 16 = MD5 digest length", [{'kind': 'exists', 'fn': '<PasswordAlgorithm as TryFrom>::try_from', 'cond': 'contains\\(.*length\\)|Rem\\(length,8\\)'}]),
-    (r"^PasswordAlgorithm::authenticate_user_password_r4$", r"index:RangeTo", r"hashed_user_password.*len", "SAFE", "len is 32 or 16 and compute_hashed_user_password_* returns 32 bytes", [{'kind': 'exists', 'fn': 'PasswordAlgorithm::authenticate_user_password_r4', 'cond': '^Lt\\(len\\(&\\*self\\.user_value\\),len\\)$'}]),
-    (r"^PasswordAlgorithm::.*_r6$", r"index:Range", r"(owner|user)_value", "SAFE", "O and U are validated to exactly 48 bytes for revision >= 5 by PasswordAlgorithm::try_from; the _r6 functions are reached only through the 5..=6 arms", [{'kind': 'exists', 'fn': '<PasswordAlgorithm as TryFrom>::try_from', 'cond': 'Ne\\(len\\(&owner_value\\),48\\)'}, {'kind': 'exists', 'fn': '<PasswordAlgorithm as TryFrom>::try_from', 'cond': 'Ne\\(len\\(&user_value\\),48\\)'}]),
+    (r"^PasswordAlgorithm::(authenticate_owner_password_r4|compute_file_encryption_key_r4)$", r"index:RangeTo", r"hash\),RangeTo::RangeTo\{n\}", "SAFE", "n = Length/8 with Length validated to 40..=128 by PasswordAlgorithm::try_from (default 40): n <= 16 = MD5 digest length", [{'kind': 'exists', 'fn': '<PasswordAlgorithm as TryFrom>::try_from', 'cond': 'contains\\(.*\\$\\d+\\)|Rem\\(\\$\\d+,8\\)'}]),
+    (r"^PasswordAlgorithm::authenticate_user_password_r4$", r"index:RangeTo", r"hashed_user_password.*len", "SAFE", "len is 32 or 16 and compute_hashed_user_password_* returns 32 bytes", [{'kind': 'exists', 'fn': 'PasswordAlgorithm::authenticate_user_password_r4', 'cond': '^Lt\\(len\\(&\\*\\$\\d+\\.user_value\\),\\$\\d+\\)$'}]),
+    (r"^PasswordAlgorithm::.*_r6$", r"index:Range", r"(owner|user)_value", "SAFE", "O and U are validated to exactly 48 bytes for revision >= 5 by PasswordAlgorithm::try_from; the _r6 functions are reached only through the 5..=6 arms", [{'kind': 'exists', 'fn': '<PasswordAlgorithm as TryFrom>::try_from', 'cond': 'Ne\\(len\\(&\\$\\d+\\),48\\)'}, {'kind': 'exists', 'fn': '<PasswordAlgorithm as TryFrom>::try_from', 'cond': 'Ne\\(len\\(&\\$\\d+\\),48\\)'}]),
     (r"^PasswordAlgorithm::.*_r6$", r"alloc:with_capacity", r"", "SAFE", "capacity is password length (<= 127 after truncation) plus an 8-byte salt"),
     (r"^PasswordAlgorithm::compute_file_encryption_key_r6$", r"generic-array|slice-op", r"", "SAFE", "key is [u8; 32] filled from a 32-byte compute_hash result; iv is [u8; 16]; block comes from chunks_exact_mut(16)"),
     (r"^PasswordAlgorithm::compute_hash$", r"alloc|overflow", r"", "SAFE", "64 * (password <= 127 + 64 + user key <= 48) is a small constant bound"),
@@ -57,30 +57,30 @@ R = [
     (r"^PasswordAlgorithm::compute_hash$", r"panic", r"unreachable", "SAFE", "match on `x % 3` with arms 0, 1, 2: the remainder of division by 3 has no other value"),
     (r"^PasswordAlgorithm::compute_hash$", r"index:Range", r"&k|&e", "SAFE", "k is a SHA-256/384/512 digest (>= 32 bytes); e is the AES output of a non-empty multiple of 64 bytes"),
     (r"^PasswordAlgorithm::compute_hashed_user_password_r3_r4$", r"index:RangeFrom", r"result.*16", "SAFE", "result was resized to 32 bytes just before"),
-    (r"^PasswordAlgorithm::validate_permissions$", r"slice-op", r"permission_encrypted", "SAFE", "Perms is validated to 16 bytes by PasswordAlgorithm::try_from for revision >= 5", [{'kind': 'exists', 'fn': '<PasswordAlgorithm as TryFrom>::try_from', 'cond': 'Ne\\(len\\(&permission_encrypted\\),16\\)'}]),
+    (r"^PasswordAlgorithm::validate_permissions$", r"slice-op", r"permission_encrypted", "SAFE", "Perms is validated to 16 bytes by PasswordAlgorithm::try_from for revision >= 5", [{'kind': 'exists', 'fn': '<PasswordAlgorithm as TryFrom>::try_from', 'cond': 'Ne\\(len\\(&\\$\\d+\\),16\\)'}]),
     (r"^PasswordAlgorithm::validate_permissions$", r"slice-op", r"file_encryption_key", "SAFE", "the revision 5/6 file encryption key is the 32-byte result of compute_hash/AES-256 (callers pass the key they computed)"),
     (r"^PasswordAlgorithm::validate_permissions$", r"generic-array", r"", "SAFE", "key is [u8; 32] and bytes is [u8; 16] by value: conversions by type"),
     (r"^PasswordAlgorithm::validate_permissions$", r"index:RangeTo", r"RangeFrom::RangeFrom\{9\}\),RangeTo::RangeTo\{3\}", "SAFE", "bytes is [u8; 16]: bytes[9..] has 7 elements"),
     (r"^Rc4::apply_keystream$", r"slice-op", r"swap", "SAFE", "state is [u8; 256] and both indices are u8 values"),
     (r"^Rc4::new$", r"slice-op", r"swap", "SAFE", "initial_state is [u8; 256]; i ranges over 0..256 and j is a u8"),
     (r"^Rc4::new$", r"panic", r"assertion failed", "SAFE", "callers pass hash[..n] with n = Length/8, Length validated to 40..=128 (default 40): 5..=16 bytes; the RC4 crypt filter rejects empty keys first"),
-    (r"^Reader::get_xref_start::\{closure#1\}$", r"overflow:Sub", r"eof_pos,25", "SAFE", "the preceding and_then closure passes on only eof_pos > 25", [{'kind': 'exists', 'fn': 'Reader::get_xref_start', 'cond': '^Gt\\(eof_pos,25\\)$'}]),
+    (r"^Reader::get_xref_start::\{closure#1\}$", r"overflow:Sub", r"eof_pos,25", "SAFE", "the preceding and_then closure passes on only eof_pos > 25", [{'kind': 'exists', 'fn': 'Reader::get_xref_start', 'cond': '^Gt\\(\\$\\d+,25\\)$'}]),
     (r"^Reader::read$", r"index:RangeFrom", r"RangeFrom\{offset\}", "SAFE", "offset is a position() inside windows(5) over the same buffer, or 0"),
     (r"^Reader::read$", r"overflow:Add|index:RangeFrom", r"pos,1", "SAFE", "pos is a position() of an element of the buffer: pos + 1 <= len"),
     (r"^Reader::read$", r"overflow:Sub", r"xref.size,1", "SAFE", "xref.size was just set to max_id().checked_add(1)? >= 1 (or already equal to it)"),
-    (r"^Reader::read_stream_content$", r"overflow:Add", r"start,length", "SAFE", "start is an offset into the buffer and length a non-negative i64: the sum fits a 64-bit usize; the result is range-checked next", [{'kind': 'dominating', 'cond': '^Lt\\(length,0\\)$', 'truth': False, 'where': 'self'}]),
+    (r"^Reader::read_stream_content$", r"overflow:Add", r"start,length", "SAFE", "start is an offset into the buffer and length a non-negative i64: the sum fits a 64-bit usize; the result is range-checked next", [{'kind': 'dominating', 'cond': '^Lt\\(\\$\\d+,0\\)$', 'truth': False, 'where': 'self'}]),
     (r"^Reader::search_substring$", r"overflow", r"", "SAFE", "index <= pattern.len() and index <= seek_pos - start_pos by construction of the scan; seek_pos < buffer.len()"),
-    (r"^Stream::decode_ascii85$", r"overflow:Add", r"count,1", "SAFE", "count is reset to 0 when it reaches 5", [{'kind': 'exists', 'fn': 'Stream::decode_ascii85', 'cond': '^Eq\\(count,5\\)$'}]),
-    (r"^Stream::decode_ascii85$", r"index:RangeTo", r"bytes.*count", "SAFE", "count is in 1..=4 here (count > 0 and reset at 5) and bytes is [u8; 4]", [{'kind': 'dominating', 'cond': '^Gt\\(count,0\\)$', 'truth': True, 'where': 'self'}, {'kind': 'exists', 'fn': 'Stream::decode_ascii85', 'cond': '^Eq\\(count,5\\)$'}]),
+    (r"^Stream::decode_ascii85$", r"overflow:Add", r"count,1", "SAFE", "count is reset to 0 when it reaches 5", [{'kind': 'exists', 'fn': 'Stream::decode_ascii85', 'cond': '^Eq\\(\\$\\d+,5\\)$'}]),
+    (r"^Stream::decode_ascii85$", r"index:RangeTo", r"bytes.*count", "SAFE", "count is in 1..=4 here (count > 0 and reset at 5) and bytes is [u8; 4]", [{'kind': 'dominating', 'cond': '^Gt\\(\\$\\d+,0\\)$', 'truth': True, 'where': 'self'}, {'kind': 'exists', 'fn': 'Stream::decode_ascii85', 'cond': '^Eq\\(\\$\\d+,5\\)$'}]),
     (r"^Stream::decompress_zlib$", r"alloc:with_capacity", r"", "SAFE", "twice the compressed input length: proportional to the input"),
     (r"^ToUnicodeCMap::from_sections$", r"index:usize", r"dst_vec,0\),0", "SAFE", "the single-element arm: dst_vec.len() == 1 was matched and the parser yields non-empty UTF-16 strings (hex_u16 many1)"),
     (r"^ToUnicodeCMap::get::\{closure#0\}$", r"op-trait", r"sub\(", "SAFE", "code is contained in the range returned by get_key_value, so code >= range.start()"),
     (r"^ToUnicodeCMap::get::\{closure#0\}$", r"unwrap", r"last_mut", "SAFE", "targets are parsed with many1 (>= 1 unit); ToUnicodeCMap::put is crate-internal in effect (public put requires non-empty dst)"),
     (r"^ToUnicodeCMap::put$", r"rangemap-insert", r"", "SAFE", "from_sections rejects end < start before calling put; put_char passes start == end"),
-    (r"^common_data_structures::decode_text_string::\{closure#0\}$", r"unwrap", r"try_into", "SAFE", "the closure's other arm handled len == 1; chunks(2) yields 1 or 2 elements", [{'kind': 'dominating', 'cond': '^Eq\\(len\\(&\\*c\\),1\\)$', 'truth': False, 'where': 'self'}]),
+    (r"^common_data_structures::decode_text_string::\{closure#0\}$", r"unwrap", r"try_into", "SAFE", "the closure's other arm handled len == 1; chunks(2) yields 1 or 2 elements", [{'kind': 'dominating', 'cond': '^Eq\\(len\\(&\\*\\$\\d+\\),1\\)$', 'truth': False, 'where': 'self'}]),
     (r"^encodings::bytes_to_string$", r"unwrap", r"from_utf16", "SAFE", "no cell of the predefined encoding tables is a surrogate (proved exhaustively by C16 rule 1)"),
-    (r"^filters::png::decode_frame$", r"alloc:resize", r"", "SAFE", "preceded by try_reserve(bytes_per_row)? on the same empty vector", [{'kind': 'call-arg', 'fn': 'filters::png::decode_frame', 'callee': 'Vec::<.*>::try_reserve$', 'arg': 1, 'matches': '^bytes_per_row$'}]),
-    (r"^filters::png::decode_frame$", r"overflow:Add|index:RangeFrom", r"pos", "SAFE", "pos < content.len() (loop condition), then read_exact of bytes_per_row succeeded: pos + 1 + bytes_per_row <= len", [{'kind': 'dominating', 'cond': '^Lt\\(pos,len\\(&\\*content\\)\\)$', 'truth': True, 'where': 'self'}]),
+    (r"^filters::png::decode_frame$", r"alloc:resize", r"", "SAFE", "preceded by try_reserve(bytes_per_row)? on the same empty vector", [{'kind': 'call-arg', 'fn': 'filters::png::decode_frame', 'callee': 'Vec::<.*>::try_reserve$', 'arg': 1, 'matches': '^\\$\\d+$'}]),
+    (r"^filters::png::decode_frame$", r"overflow:Add|index:RangeFrom", r"pos", "SAFE", "pos < content.len() (loop condition), then read_exact of bytes_per_row succeeded: pos + 1 + bytes_per_row <= len", [{'kind': 'dominating', 'cond': '^Lt\\(\\$\\d+,len\\(&\\*\\$\\d+\\)\\)$', 'truth': True, 'where': 'self'}]),
     (r"^filters::png::decode_row$", r"bounds", r"len\(previous\)", "SAFE", "precondition previous.len() >= current.len(): the only in-crate caller decode_frame resizes both rows to bytes_per_row"),
     (r"^parser::(_indirect_object|integer|real|stream)$", r"overflow:Sub|index:RangeTo", r"", "SAFE", "i is the remainder nom returned for `input`: a suffix, so i.len() <= input.len()"),
     (r"^parser::(integer|real)$", r"unwrap", r"from_utf8", "SAFE", "the consumed prefix matched only ASCII sign/digits/'.'"),
@@ -101,8 +101,9 @@ def main():
     findings = []
     out = {}
     un = 0
-    for fn, rows in t.items():
+    for file, rows in t.items():
         for r in rows:
+            fn = r["fn"]
             verdict = None
             guards = None
             for ent in R:
@@ -112,19 +113,28 @@ def main():
                     guards = ent[5] if len(ent) > 5 else None
                     break
             if verdict == "SAFE":
-                row = dict(r, reason=reason)
-                row.pop("guards", None)
-                if guards:
-                    row["guards"] = guards
-                out.setdefault(fn, []).append(row)
+                # merge rows of one file with the same key, reason and guards
+                lst = out.setdefault(file, [])
+                hit = None
+                for x in lst:
+                    if x["kind"] == r["kind"] and x["nterm"] == r["nterm"] and x["reason"] == reason and x.get("guards") == guards:
+                        hit = x
+                if hit:
+                    hit["n"] += r["n"]
+                    if fn not in hit["in"]:
+                        hit["in"].append(fn)
+                else:
+                    row = {"kind": r["kind"], "nterm": r["nterm"], "n": r["n"], "reason": reason, "in": [fn], "example": r["term"]}
+                    if guards:
+                        row["guards"] = guards
+                    lst.append(row)
             elif verdict == "FINDING":
-                findings.append({"fn": fn, "kind": r["kind"], "term": r["term"], "n": r["n"], "what": reason})
+                findings.append({"file": file, "fn": fn, "kind": r["kind"], "term": r["term"], "nterm": r["nterm"], "n": r["n"], "what": reason})
             else:
                 un += 1
-                out.setdefault(fn, []).append(dict(r, reason="UNREVIEWED"))
-                print("UNREVIEWED", fn, r["kind"], r["term"][:100])
+                print("UNREVIEWED", file, fn, r["kind"], r["term"][:100])
     json.dump(out, open(p, "w"), indent=1, sort_keys=True)
     json.dump(findings, open(os.path.join(V, "tables", "inventory_findings.json"), "w"), indent=1, sort_keys=True)
-    print("safe entries:", sum(len(v) for v in out.values()) - un, "findings:", len(findings), "unreviewed:", un)
+    print("safe rows:", sum(len(v) for v in out.values()), "sites:", sum(x["n"] for v in out.values() for x in v), "findings:", len(findings), "unreviewed:", un)
 
 main()
